@@ -332,7 +332,13 @@ pub enum RRet {
     Removed(Option<u64>),
     /// get_or_fetch: Ok(version returned) / Err(text); `origin_done` = stamp at which this call's own origin future
     /// produced its value (0 = it never ran to completion)
-    Fetched { ret: Result<u64, String>, origin_done: u64 },
+    Fetched {
+        ret: Result<u64, String>,
+        origin_done: u64,
+        /// stamp at which this call's own origin future was first polled (0 = never)
+        #[serde(default)]
+        origin_start: u64,
+    },
 }
 
 #[derive(Clone, Debug, Serialize, Deserialize)]
@@ -444,10 +450,13 @@ fn run_thread(t: usize, ops: &[ROp], sh: &Shared, rt: Option<&tokio::runtime::Ru
                 let ver = ver_of(t, i);
                 let done = Arc::new(AtomicU64::new(0));
                 let d2 = done.clone();
+                let started = Arc::new(AtomicU64::new(0));
+                let s2 = started.clone();
                 let val = RVal::new(k, ver, *w as usize);
                 let clock = sh.clock.clone();
                 let _guard = rt.map(|r| r.enter()).or_else(|| free_handle.map(|h| h.enter()));
                 let mut fut = Box::pin(cache.get_or_fetch(&k, move || async move {
+                    s2.store(clock.fetch_add(1, Ordering::SeqCst) + 1, Ordering::SeqCst);
                     ctl_point(false);
                     d2.store(clock.fetch_add(1, Ordering::SeqCst) + 1, Ordering::SeqCst);
                     Ok::<_, anyhow::Error>(val)
@@ -481,9 +490,9 @@ fn run_thread(t: usize, ops: &[ROp], sh: &Shared, rt: Option<&tokio::runtime::Ru
                         if *hold {
                             handles.push((e, k, v));
                         }
-                        RRet::Fetched { ret: Ok(v), origin_done }
+                        RRet::Fetched { ret: Ok(v), origin_done, origin_start: started.load(Ordering::SeqCst) }
                     }
-                    Err(e) => RRet::Fetched { ret: Err(format!("{e}").chars().take(160).collect()), origin_done },
+                    Err(e) => RRet::Fetched { ret: Err(format!("{e}").chars().take(160).collect()), origin_done, origin_start: started.load(Ordering::SeqCst) },
                 }
             }
             ROp::Clear => {
@@ -745,7 +754,7 @@ fn key_ops(recs: &[Rec], key: u8) -> Vec<KOp> {
             (ROp::Get { k, .. }, RRet::Got(None)) if *k == key => push(Sem::Absent, r.invoke, r.response),
             (ROp::Contains { k } | ROp::Touch { k }, RRet::Bool(true)) if *k == key => push(Sem::Present, r.invoke, r.response),
             (ROp::Contains { k } | ROp::Touch { k }, RRet::Bool(false)) if *k == key => push(Sem::Absent, r.invoke, r.response),
-            (ROp::Fetch { k, .. }, RRet::Fetched { ret, origin_done }) if *k == key => {
+            (ROp::Fetch { k, .. }, RRet::Fetched { ret, origin_done, .. }) if *k == key => {
                 let own = ver_of(r.t, r.i);
                 match ret {
                     Ok(v) if *v == own => push(Sem::Write(own), r.invoke, r.response),
@@ -1257,4 +1266,139 @@ pub fn replay_crash(case: &serde_json::Value) -> Option<Failure> {
         }
     }
     first
+}
+
+// ---------------------------------------------------------------------------------------------------------------
+// C11 under real concurrency: an insert that has returned is not overwritten / ignored by a fetch of the key
+// ---------------------------------------------------------------------------------------------------------------
+
+/// Programs of get_or_fetch / insert / get on one or two keys with ample capacity (nothing is ever evicted) and no
+/// remove / clear / resize, free-running.
+pub fn c11_free_case(runs: u16) -> impl Strategy<Value = RCase> {
+    let op = prop_oneof![
+        5 => Just(ROp::Fetch { k: 0, w: 1, hold: false }),
+        5 => Just(ROp::Insert { k: 0, w: 1, hold: false }),
+        2 => Just(ROp::Get { k: 0, hold: false }),
+    ];
+    (algo_strategy(), 2usize..=3, any::<bool>()).prop_flat_map(move |(algo, threads, two_keys)| {
+        let cfg = RCfg { algo, capacity: 64, shards: 1, universe: if two_keys { 2 } else { 1 } };
+        (Just(cfg), prop::collection::vec(prop::collection::vec(op.clone(), 1..=3), threads..=threads), prop::collection::vec(0u8..2, 9)).prop_map(move |(cfg, mut program, keys)| {
+            // assign keys (most ops on key 0)
+            let mut i = 0;
+            for t in program.iter_mut() {
+                for o in t.iter_mut() {
+                    let k = if cfg.universe == 2 && keys[i % keys.len()] == 1 && i % 3 == 0 { 1 } else { 0 };
+                    i += 1;
+                    match o {
+                        ROp::Fetch { k: kk, .. } | ROp::Insert { k: kk, .. } | ROp::Get { k: kk, .. } => *kk = k,
+                        _ => {}
+                    }
+                }
+            }
+            RCase { cfg, program, schedule: vec![], mode: Mode::Free { runs } }
+        })
+    })
+}
+
+/// The clause, on one recorded execution: with nothing that could make the key absent (ample capacity, no remove /
+/// clear / evict / resize in the program), a get_or_fetch whose own origin was first polled after an explicit insert of
+/// the key had returned violates C11 - either its lookup missed a resident entry, or its flight was registered before
+/// the insert and not closed by it, or the closed flight's task polled its origin anyway and (before fix e4ad855) would
+/// publish the older result.
+pub fn judge_c11_free(ex: &Exec) -> Option<Failure> {
+    if let Some(p) = ex.panics.first() {
+        return Some(p.clone());
+    }
+    if let Some(b) = ex.bad.first() {
+        return Some(Failure::new("free:handle-or-value-integrity", b.clone()));
+    }
+    for f in &ex.recs {
+        let (ROp::Fetch { k, .. }, RRet::Fetched { origin_start, ret, .. }) = (&f.op, &f.ret) else { continue };
+        if *origin_start == 0 {
+            continue;
+        }
+        for i in &ex.recs {
+            if let ROp::Insert { k: ki, .. } = &i.op {
+                if ki == k && i.response < *origin_start {
+                    return Some(Failure::new(
+                        "free:origin-ran-after-insert-returned",
+                        format!(
+                            "insert of key {k} by T{}#{} returned at stamp {} ; the origin of get_or_fetch T{}#{} (invoked {}, answered {:?} at {}) was first polled at stamp {} although the key could not have become absent in between",
+                            i.t, i.i, i.response, f.t, f.i, f.invoke, ret, f.response, origin_start
+                        ),
+                    ));
+                }
+            }
+        }
+    }
+    // and the end state: the value of the last insert that started after every origin had finished must be what a
+    // final lookup returns (nothing can evict it)
+    None
+}
+
+pub fn exec_c11_free(case: &RCase) -> CaseReport {
+    let mut rep = CaseReport::default();
+    let Mode::Free { runs } = &case.mode else { return rep };
+    let rt = tokio::runtime::Builder::new_multi_thread().worker_threads(2).build().expect("runtime");
+    let base = crate::common::fingerprint(&(&case.cfg, &case.program));
+    let mut overlapped = 0u32;
+    for run in 0..*runs {
+        let ex = execute(&case.cfg, &case.program, None, base ^ ((run as u64 + 1) << 32), Some(rt.handle()));
+        bump();
+        // non-trivial: an insert and a fetch of the same key overlapped
+        let nt = ex.recs.iter().any(|f| {
+            matches!(f.op, ROp::Fetch { .. }) && ex.recs.iter().any(|i| matches!((&i.op, &f.op), (ROp::Insert { k: a, .. }, ROp::Fetch { k: b, .. }) if a == b) && i.invoke < f.response && f.invoke < i.response)
+        });
+        if nt {
+            overlapped += 1;
+        }
+        if let Some(mut f) = judge_c11_free(&ex) {
+            f.message = format!("{} [free-running, run {run}]", f.message);
+            LAST_FREE_FAIL.with(|l| *l.borrow_mut() = Some((case.cfg.clone(), ex.recs.clone())));
+            rep.failure = Some(f);
+            break;
+        }
+    }
+    rep.nontrivial = overlapped > 0;
+    if overlapped > 0 {
+        rep.classes.push("insert-overlaps-fetch");
+    }
+    rt.shutdown_background();
+    rep
+}
+
+/// Replay of a recorded history against the C11 clause.
+pub fn replay_c11_history(case: &serde_json::Value) -> Option<Failure> {
+    let recs: Vec<Rec> = serde_json::from_value(case["history"].clone()).ok()?;
+    judge_c11_free(&Exec { recs, bad: vec![], panics: vec![], trace: vec![], aborted: false, switches: 0 })
+}
+
+/// Run the sub-check inside `check` (property C11). A failure is saved with its recorded history.
+pub fn run_c11_free(check: &Check) {
+    install_hook();
+    if !check.stats.violations.lock().unwrap().is_empty() {
+        return;
+    }
+    let fails: Mutex<Vec<(serde_json::Value, Failure)>> = Mutex::new(vec![]);
+    let executions = AtomicU64::new(0);
+    let wrap = |c: &RCase| {
+        let mut r = exec_c11_free(c);
+        executions.fetch_add(take_executions(), Ordering::Relaxed);
+        if let Some(f) = r.failure.take() {
+            if let Some((cfg, recs)) = LAST_FREE_FAIL.with(|l| l.borrow_mut().take()) {
+                let mut ff = fails.lock().unwrap();
+                if ff.len() < 4 {
+                    ff.push((json!({"cfg": cfg, "program": c.program, "history": recs}), f));
+                }
+            }
+            // do not let proptest shrink by re-running threads: the recorded history is the finding
+        }
+        r
+    };
+    let runs = check.tier.pick(40, 200);
+    check.run_random("free-insert-vs-fetch", check.tier.pick(4_000, 100_000), || c11_free_case(runs), wrap);
+    check.set_extra("executions_free_insert_vs_fetch", json!(executions.load(Ordering::Relaxed)));
+    if let Some((case, f)) = fails.lock().unwrap().first().cloned() {
+        check.violation("free-history", &case, &f);
+    }
 }
